@@ -111,10 +111,49 @@ def views(ctx, lst):
     return v1, v2, v3
 
 
+def body_views(ctx, lst):
+    """The same calls written in the BODY of a template (template_fn view of {{t|...}}, Lua view of {{#invoke:echo|dump|...}})."""
+    txt = "|".join(lst)
+    ctx.add_page("Template:c14body", 10, "{{t|%s}}" % txt)
+    ctx.add_page("Template:c14bodylua", 10, "{{#invoke:echo|dump|%s}}" % txt)
+    cap = {}
+
+    def tf(name, ht):
+        if name == "t":
+            cap.update(ht)
+        return None
+
+    ctx.start_page("Tt")
+    ctx.expand("{{c14body}}", template_fn=tf)
+    ctx.start_page("Tt")
+    out = ctx.expand("{{c14bodylua}}")
+    v3 = {}
+    for part in out.split(";;"):
+        if not part:
+            continue
+        try:
+            typ, rest = part.split(":", 1)
+            k, v = rest.split("=<", 1)
+            v3[int(k) if typ == "number" else k] = v[:-1]
+        except ValueError:
+            v3["?"] = out[:100]
+    return dict(cap), v3
+
+
 def check(ctx, lst):
     v1, v2, v3 = views(ctx, lst)
     r = ref(lst)
     out = []
+    # written in a template body the call has the views it has on a page (up to the one trailing newline of a positional
+    # value that substitution into a body drops: known finding K04 of C04)
+    if not any("{{{" in a for a in lst):
+        b2, b3 = body_views(ctx, lst)
+        cut = lambda d: {k: (v[:-1] if isinstance(k, int) and isinstance(v, str) and v.endswith("\n") else v) for k, v in d.items()}  # noqa: E731
+        jsb = lambda d: sorted(((str(type(k).__name__), str(k)), v) for k, v in d.items())  # noqa: E731
+        if cut(b2) != cut(v2):
+            out.append(("expander_view_of_a_call_in_a_template_body", jsb(b2), jsb(v2)))
+        if cut(b3) != cut(v3):
+            out.append(("lua_view_of_a_call_in_a_template_body", jsb(b3), jsb(v3)))
     js = lambda d: sorted(((str(type(k).__name__), str(k)), v) for k, v in d.items())  # noqa: E731
     if v1 != r:
         # known finding: the tokenizer drops lines that consist of blanks only, in argument values too
